@@ -7,7 +7,14 @@ are z3 bit-vectors over a finite alphabet (engine/sstr.py), with `re` replaced b
 of engine/reshim.py (the real pattern text, parsed by CPython's own regex parser) and max_results a
 symbolic integer.  On every path the returned item list is compared, by z3 over ALL characters of the
 path, with a short whole-word reference written here; a refuting model is replayed with plain strings
-against the unstubbed code (real `re`, real dict hashing)."""
+against the unstubbed code (real `re`, real dict hashing).
+
+Second sentence of the property, as far as names decide it: is_parent_of / is_child_of / _get_parent_directories /
+_get_child_directories against a component-wise reference on symbolic paths (h_contains), and the real
+add_shared_directory / scan_directory / scan_directory_files / remove_shared_directory / get_stats over an in-memory
+directory tree (engine/symos.py: os.walk, commonpath, relpath on symbolic strings) whose directory names are
+symbolic: every file is held by exactly one shared directory, the innermost one, and the reported counts equal the
+index (h_index).  Replays build the tree in a real temporary directory and use the real os.walk."""
 from __future__ import annotations
 
 import itertools
@@ -1102,7 +1109,11 @@ META = {
     'functions': [SM.SharesManager.query, SM.SharesManager.rebuild_term_map, SM.SharesManager._build_term_map,
                   SM.SharesManager._add_item_to_term_map, SM.SharesManager._cleanup_term_map, SM.SharesManager.scan_directory_files,
                   QM.SearchQuery.parse, QM.SearchQuery.matchers_iter, QM.SearchQuery.has_inclusion_terms, SU.create_term_pattern,
-                  SU.normalize_remote_path, MD.SharedItem.get_query_path],
+                  SU.normalize_remote_path, MD.SharedItem.get_query_path,
+                  MD.SharedDirectory.is_parent_of, MD.SharedDirectory.is_child_of, MD.SharedDirectory.get_items_for_directory,
+                  SM.SharesManager._get_parent_directories, SM.SharesManager._get_child_directories, SM.scan_directory,
+                  SM.SharesManager.add_shared_directory, SM.SharesManager.remove_shared_directory, SM.SharesManager.get_shared_directory,
+                  SM.SharesManager.is_directory_shared, SM.SharesManager.get_stats],
     'stubs': ['`re` in shares.manager / shares.utils / shares.model / search.model -> engine.reshim.ReShim: compile/search/match/fullmatch = '
               'formula over positions built from the real pattern text parsed by re._parser (validated against CPython re in prelude and by '
               'the selfcheck harness on all of Σ^n); split/sub/escape = engine.sstr backtracking matcher (forks per separator position)',
@@ -1119,28 +1130,48 @@ META = {
               'module-level containers / lru_caches of the four modules under test are reset to their import-time content at the start '
               'of every path and replay (each path = a freshly started process; state carried from query to query is covered by the '
               'two-query jobs)',
-              'concrete replay: plain str, real re, real os, real hashing; only the scan_directory listing remains'],
+              'h_contains / h_index: `os` -> engine.symos.OsShim: os.walk over sstr.SymFS (an in-memory tree whose entry names may be symbolic), '
+              'os.path.commonpath / relpath / normpath / abspath / join as transcriptions of posixpath that fork on separator positions and '
+              'component equalities (validated against posixpath and a real os.walk in prelude), getmtime = the model value',
+              '`isinstance` in shares.manager / shares.model: an SStr counts as str (SStr is not a str subclass)',
+              'h_index: SharesManager.generate_alias -> al0, al1, ... (path.encode() + uuid is C code; symbolic runs only); '
+              '_build_term_map -> no-op on the instance (the term map is the other half; building it would only fork over word characters '
+              'of directory names); scan_directory is called through a wrapper that records its exceptions (scan_directory_files logs and '
+              'drops them: a harness error inside the scan must not be swallowed)',
+              'concrete replay: plain str, real re, real os, real hashing; query jobs: only the scan_directory listing remains; index jobs: the '
+              'tree is created in a real temporary directory and scanned by the real os.walk'],
     'data_variables': ['every character of every file name (2..4 files, 1..4 free characters each plus pinned separators in some templates, each '
                        'free character over the whole alphabet Σ = ' + ''.join(SIGMA) + ')',
                        'max_results: Int 1..100',
                        'characters of query terms in the symbolic-query jobs (# letter/digit, ? any non-blank character incl. * and -)',
-                       'h_pattern: every character of the searched string (length 0..7) and of symbolic terms'],
+                       'h_pattern: every character of the searched string (length 0..7) and of symbolic terms',
+                       'h_contains: every character after the leading / of two absolute paths (0..7 free characters each) over Σ + "/": where the '
+                       'components are is the solver\'s choice (assumed normalised as abspath+normpath return them)',
+                       'h_index: every character of every directory name below the outer shared directory (nested shared directory, its siblings, '
+                       'an intermediate directory, a sub-directory; 1..4 characters each over Σ), in some jobs 2-character file names'],
     'discriminants': ['number and lengths of file names / name templates', 'layout (shared directory and concrete sub-directory of each file)',
                       'the query template (pinned family of ' + str(len(QUERIES_THOROUGH)) + ' queries + ' + str(len(QUERIES_SYMBOLIC)) + ' symbolic templates)',
                       'how the index came about (rebuild from items / per-directory build + clean-up / scan / rescan after a file vanished, appeared, changed)',
                       'a second query on the same manager',
+                      'h_index: tree shape (T1..T5), name lengths, history (order of add outer / add nested / scan / remove nested / remove outer; 9 '
+                      'histories), whether a sibling name is a string-prefix extension of the nested directory\'s name (decided by a fork, part '
+                      'of the signature)',
                       'separator masks, word equalities, match outcomes: decided by forking inside the code under test'],
     'bounds': {
         'quick': {'files': '2 (3 in the rescan jobs)', 'free_name_characters': '2..3 per file (one template ~~ ~~)', 'queries': len(QUERIES_QUICK),
                   'symbolic_query_templates': len(QUERIES_SYMBOLIC_QUICK), 'layouts': ['flat', 'sub', 'two'],
-                  'pattern_string_length': '0..4', 'selfcheck_string_length': '0..2'},
+                  'pattern_string_length': '0..4', 'selfcheck_string_length': '0..2',
+                  'containment_paths': '0..5 free characters each', 'index_trees': 'T1..T5, 1..3 name-length combinations each, all histories'},
         'thorough': {'files': '2..4', 'free_name_characters': '2..4 per file, <= 8 in total (templates with pinned blanks / . / - up to 6 characters)',
                      'queries': len(QUERIES_THOROUGH), 'symbolic_query_templates': len(QUERIES_SYMBOLIC), 'layouts': sorted(LAYOUTS),
                      'histories': ['index', 'incremental', 'scan', 'vanished', 'appeared', 'changed'], 'query_pairs': 6,
-                     'pattern_string_length': '0..7', 'selfcheck_string_length': '0..3'}},
-    'outside': ['the indexing half of the property: add / remove / update histories, os.walk, nested shared directories moving items '
-                'between parent and child, get_stats counts -- only discriminants and the file system, nothing for a solver to decide (not '
-                'claimed; the rescan histories above are there because the term map they leave is what the query reads)',
+                     'pattern_string_length': '0..7', 'selfcheck_string_length': '0..3',
+                     'containment_paths': '0..7 free characters each',
+                     'index_trees': 'T1..T5, names 1..4 characters (T1/T5: all 16 length pairs), all histories, with concrete and symbolic file names'}},
+    'outside': ['of the indexing half: the real os.walk on a real disk in symbolic runs (replays do use it), symlinks, permission / OSError paths of '
+                'the scan, Windows path semantics (ntpath, drive letters, case-insensitive names), file attribute extraction (mutagen), '
+                'update_shared_directory, load_from_settings, the shares cache (cache.py re-points item.shared_directory on read), more than one '
+                'level of shared nesting, trees / histories other than the enumerated ones, directory names longer than 4 characters',
                 'PeerSearchReply construction (C08 covers entitlement); excluded_search_phrases; the username / locked split',
                 'characters outside Σ, in particular characters whose case mapping is not 1:1 (İ, ß, ſ, K: str.lower(), re.IGNORECASE and '
                 'casefold disagree on them -- a file named "İstanbul.mp3" is not found by the query "İstanbul", seen in a concrete probe) and '
